@@ -7,6 +7,7 @@ import Mb2.Spec
 import Mb2.Ids
 import Mb2.Sweep
 import Mb2.Build
+import Mb2.HTags
 namespace Mb2.Driver
 open Mb2
 
@@ -481,6 +482,7 @@ def handle (p : Profile) (line : String) : String :=
     | "HBUILD" => hbuildCase p t
     | "CLONE" => cloneCase p t
     | "ELFNAME" => elfnameCase t
+    | "HSWEEP" => (match t with | _ :: hx :: _ => HSweep.hsweep p (unhex hx) | _ => "bad-case")
     | "SWEEP" => (match t with | _ :: hx :: _ => Sweep.sweep p (unhex hx) | _ => "bad-case")
     | _ => s!"unknown-family:{f}"
 
